@@ -28,7 +28,7 @@ REAL_VS_STUB = {'real': ['kyupy.circuit.Circuit: copy, __getstate__/__setstate__
 ASSUMPTIONS = ['the set of cell names every library must offer is the pinned tree\'s (dsim/data/libcells.json, 1026 names); additional cells are fine', 'an instance input pin is left unconnected only where "reads 0" and "not connected" give the cell the same function (otherwise the function before resolving is ambiguous)',
                'the function of a sequential library instance is defined through its implementation: state = the state element inside, result = value at that element\'s data pin',
                'one library per case; resolve_tlib_cells is called with the library the instances were taken from']
-EXPECTED_PROBES = ['library_simulation_compared', 'manual_buffer_inserted', 'implementation_reused_after_edit', 'nested_multi_output_impl', 'resolve_step', 'substitute_step', 'restore_step', 'elim_step', 'unconnected_input_pin', 'unconnected_output_pin', 'sequential_cell', 'multi_output_cell', 'cell_without_output', 'ignored_pin_cell']
+EXPECTED_PROBES = ['fork_as_port', 'library_simulation_compared', 'manual_buffer_inserted', 'implementation_reused_after_edit', 'nested_multi_output_impl', 'resolve_step', 'substitute_step', 'restore_step', 'elim_step', 'unconnected_input_pin', 'unconnected_output_pin', 'sequential_cell', 'multi_output_cell', 'cell_without_output', 'ignored_pin_cell']
 
 LIBS = ['GSC180', 'NANGATE', 'NANGATE_ZN', 'SAED32', 'SAED90']
 HIDDEN_LATCH = ('DLH_X', 'DLL_X', 'TLAT_X1', 'TLATX1', 'TLATSRX1')
@@ -76,7 +76,7 @@ def gen(rng, tier, i):
         steps.append([k, rng.randrange(1 << 16), rng.randrange(1 << 16)])
     if not any(s[0] == 'resolve' for s in steps): steps.insert(rng.randint(0, len(steps)), ['resolve', 0, 0])
     return {'lib': li, 'n_in': n_in, 'items': items, 'outs': [rng.randrange(1 << 16) for _ in range(rng.randint(1, 4))], 'out_all_unread': rng.random() < 0.6,
-            'fmode': [rng.choice([0, 0, 1, 2, 3]) for _ in range(rng.randint(1, 5))], 'steps': steps, 'ports_first': rng.random() < 0.3, 'node_order': rng.randrange(1, 1 << 16) if rng.random() < 0.4 else 0}
+            'fmode': [rng.choice([0, 0, 1, 2, 3]) for _ in range(rng.randint(1, 5))], 'steps': steps, 'bench_ports': rng.random() < 0.25, 'ports_first': rng.random() < 0.3, 'node_order': rng.randrange(1, 1 << 16) if rng.random() < 0.4 else 0}
 
 
 def cell_pins(impl):
@@ -179,19 +179,29 @@ def build(case, res):
     if case.get('out_all_unread'):
         chosen += [s for s in range(len(ins), n_sig) if not readers[s]]
     seen = set()
+    port_fork = {}
     for s in chosen:
         if s in seen: continue
         seen.add(s)
+        if case.get('bench_ports') and s >= len(ins):
+            # bench style: the signal's fork IS the port (and may be read inside as well)
+            o = Node(c, f'o{len(outs)}'); outs.append(o); port_fork[s] = o
+            res.probe('fork_as_port')
+            continue
         o = Node(c, f'o{len(outs)}', 'output'); outs.append(o)
         readers[s].append((o, 0))
     fmode = case['fmode'] or [0]
     for s in range(n_sig):
         pn, ppin = sigs[s]
         rd = readers[s]
+        mode = fmode[s % len(fmode)]
+        if s in port_fork:
+            Line(c, (pn, ppin), (port_fork[s], 0))
+            cgen._fan(c, port_fork[s], rd, mode if mode != 0 or len(rd) != 1 else 1, f's{s}')
+            continue
         if not rd:
             if pn.kind in tlib.cells: res.probe('unconnected_output_pin')
             continue
-        mode = fmode[s % len(fmode)]
         if len(rd) == 1 and mode == 0:
             Line(c, (pn, ppin), rd[0]); continue
         f = Node(c, f's{s}')
@@ -477,5 +487,6 @@ def shrinks(case):
     if case['fmode'] != [0]: yield dict(case, fmode=[0])
     if case.get('node_order'): yield dict(case, node_order=0)
     if case.get('ports_first'): yield dict(case, ports_first=False)
+    if case.get('bench_ports'): yield dict(case, bench_ports=False)
     for j, x in enumerate(it):
         if x[0] == 'lib' and x[3] != 0xff: yield dict(case, items=it[:j] + [[x[0], x[1], x[2], 0xff, x[4]]] + it[j + 1:])
